@@ -445,7 +445,94 @@ def load_program(repo=None, extra_defs=(), want_tool=True, cache=True):
     prog.flags = flags
     prog.tree_hash = key
     prog.inlined_calls = inline_expression_functions(prog)
+    prog.normalised_increments = normalise_flag_increments(prog)
     return prog
+
+
+def _return_chain(f, st):
+    """the single expression a body of the shape `if (c1) return e1; if (c2) return e2; ... return en;` computes:
+    c1 ? e1 : (c2 ? e2 : ... en); None when the body has another shape"""
+    if not st or st[-1].get("kind") != "ReturnStmt" or not kids(st[-1]):
+        return None
+    rt = qtype(f).split("(")[0].strip()
+    e = kids(st[-1])[0]
+    for s_ in reversed(st[:-1]):
+        if s_.get("kind") != "IfStmt":
+            return None
+        ks = kids(s_)
+        if len(ks) != 2:
+            return None
+        then = ks[1]
+        if then.get("kind") == "CompoundStmt" and len(kids(then)) == 1:
+            then = kids(then)[0]
+        if then.get("kind") != "ReturnStmt" or not kids(then):
+            return None
+        e = {"kind": "ConditionalOperator", "type": {"qualType": rt}, "valueCategory": "prvalue", "range": s_.get("range", {}),
+             "id": s_.get("id", "") + "?", "inner": [ks[0], kids(then)[0], e]}
+    return e
+
+
+def normalise_flag_increments(prog):
+    """`if (x->flag) v++;` (no else; the condition is a bare member of boolean type, the branch a single increment by one) is
+    rewritten in the AST to `v += x->flag`, the form the pinned tree uses for selecting the neighbouring table row, so both
+    spellings look alike to every rule.  Returns the number of rewritten statements."""
+    n = 0
+
+    def is_flag(c):
+        """a member that can only be 0 or 1: of boolean type, or a bit-field of width one"""
+        c0 = strip(c, casts=True)
+        if c0.get("kind") != "MemberExpr":
+            return False
+        t = (c0.get("type") or {})
+        if (t.get("desugaredQualType") or t.get("qualType")) in ("_Bool", "bool"):
+            return True
+        fd = prog.by_id.get(c0.get("referencedMemberDecl"))
+        if fd is not None and fd.get("isBitfield"):
+            for w in kids(fd):
+                if w.get("kind") == "ConstantExpr" and str(w.get("value")) == "1":
+                    return True
+                if w.get("kind") == "IntegerLiteral" and str(w.get("value")) == "1":
+                    return True
+        return False
+
+    def incr_target(b):
+        if b.get("kind") == "CompoundStmt" and len(kids(b)) == 1:
+            b = kids(b)[0]
+        b0 = strip(b)
+        if b0.get("kind") == "UnaryOperator" and b0.get("opcode") in ("++",):
+            return kids(b0)[0], b0
+        if b0.get("kind") == "CompoundAssignOperator" and b0.get("opcode") == "+=":
+            r = strip(kids(b0)[1], casts=True)
+            if r.get("kind") == "IntegerLiteral" and r.get("value") == "1":
+                return kids(b0)[0], b0
+        return None
+
+    def rewrite(node):
+        nonlocal n
+        for c in node.get("inner", []) or []:
+            if c:
+                rewrite(c)
+        if node.get("kind") == "IfStmt" and not node.get("hasElse"):
+            ks = kids(node)
+            if len(ks) == 2 and is_flag(ks[0]):
+                t = incr_target(ks[1])
+                if t is not None:
+                    lhs, inc = t
+                    keep = {k: node[k] for k in ("id", "range") if k in node}
+                    new = {"kind": "CompoundAssignOperator", "opcode": "+=", "type": lhs.get("type", {}), "valueCategory": "prvalue",
+                           "computeLHSType": lhs.get("type", {}), "computeResultType": lhs.get("type", {}),
+                           "inner": [lhs, {"kind": "ImplicitCastExpr", "castKind": "IntegralCast", "type": lhs.get("type", {}),
+                                           "valueCategory": "prvalue", "range": ks[0].get("range", {}), "inner": [ks[0]]}],
+                           "_normalised_from": "if (flag) v++"}
+                    node.clear()
+                    node.update(keep)
+                    node.update(new)
+                    n += 1
+    for name, f in prog.functions.items():
+        b = prog.body(f)
+        if b is not None:
+            rewrite(b)
+    return n
 
 
 def inline_expression_functions(prog):
@@ -475,9 +562,9 @@ def inline_expression_functions(prog):
         if body is None:
             continue
         st = kids(body)
-        if len(st) != 1 or st[0].get("kind") != "ReturnStmt" or not kids(st[0]):
+        e = _return_chain(f, st)
+        if e is None:
             continue
-        e = kids(st[0])[0]
         ps = prog.params(f)
         if any("*" in qtype(p) or "[" in qtype(p) for p in ps):
             continue
